@@ -152,6 +152,11 @@ def labels(draw, n):
 @st.composite
 def call_args(draw, name):
     """(args, kwargs) for a public function, or None if the function has no registry row"""
+    if name == "consensus_und":
+        # agreement matrices as agreement() produces them (dense, nonzero diagonal possible), thresholds from "cuts nothing" upwards
+        D = draw(matrix("wu01full" if draw(st.booleans()) else "wu", 4, 6))
+        tau = draw(st.sampled_from([0.0, 0.125, 0.25, 0.5, float(np.min(np.array(D, dtype=float)))]))
+        return [D, tau], {"reps": draw(st.integers(2, 3)), "seed": draw(st.integers(0, 100))}
     if name in c05.registered() and name not in ("get_rng", "pick_four_unique_nodes_quickly", "core_periphery_dir"):
         a, kw = draw(c05.arg_strategy(name))
         a = list(a)
@@ -235,6 +240,15 @@ def call_args(draw, name):
             if dg != "zero":
                 np.fill_diagonal(spl, {"inf": np.inf, "nan": np.nan, "one": 1.0}[dg])
             kw["spl"] = spl
+        if name == "resource_efficiency_bin" and draw(st.booleans()):
+            # the caller's own transition matrix (self-connections keep a walker in place with some probability)
+            Af = np.nan_to_num(np.array(W, dtype=float), nan=0.0, posinf=1.0, neginf=1.0) != 0
+            Af = Af.astype(float)
+            if draw(st.booleans()):
+                for i in range(0, len(Af), 2):
+                    Af[i, i] = 1.0
+            rs = Af.sum(axis=1, keepdims=True)
+            kw["m"] = Af / np.where(rs == 0, 1.0, rs)
         return [W] + list(extra), kw
     return None
 
